@@ -76,13 +76,13 @@ func VerifC09_FuseRead() {
 // complete, correct range - a store failure on the second chunk of a request that spans a
 // chunk boundary must not turn into a short OK reply (the kernel would zero-fill and cache it).
 func VerifC09_FuseStoreErrors() {
-	k, reads := 2, 1
+	k, reads := 2, 2 // two requests on one handle: the second may be a retry after the first failed
 	if vTier() > 0 {
-		k, reads = 2+vChoose("chunks", 2), 2
+		k = 2 + vChoose("chunks", 2)
 	}
 	blob, idx, st := verifBlobIndex(k, 2)
 	st.useAt, st.failGetAt, st.failHasAt, st.failPutAt = true, vInt("fail-get-at"), -1, -1
-	vAssume(st.failGetAt >= 0 && st.failGetAt < 2*reads)
+	vAssume(st.failGetAt >= 0 && st.failGetAt < 3)
 	length := int64(len(blob))
 	h := newIndexFileHandle(idx, st)
 	for q := 0; q < reads; q++ {
